@@ -95,12 +95,47 @@ def c09_pack_gen(rng, tier):
 CODEC_TRUST = ["codec: Go byte = N < 256 (the model's functions are total on all N lists); sync.Pool/bytespool recycling is "
                "outside the codec model (C20)"]
 
+def c01_wedge_gen(rng, tier):
+    import struct
+    n = budget(tier, 240, 6000)
+    cfg = "U=u;E=0;S=-;R=-:0:0:0"
+    out = []
+    for i in range(n):
+        l = rng.choice(["udp", "udp", "tcp", "gnet", "http-post", "http-get", "fasthttp-post", "fasthttp-get"])
+        r = rng.random()
+        if r < 0.5:
+            bad = gens.mutate(rng, gens.gen_msg(rng))
+        elif r < 0.8:
+            bad = rng.choice(gens.boundary_msgs(rng))[1]
+        else:
+            bad = bytes(rng.randrange(256) for _ in range(rng.choice([0, 1, 2, 11, 12, 13, 100, 600, 3000])))
+        name = gens.raw_name([b"ok%d" % i, b"test"])
+        q = struct.pack(">HHHHHH", rng.randrange(65536), 0x0100, 1, 0, 0, 0) + name + b"\0" + struct.pack(">HH", 1, 1)
+        reply = struct.pack(">HHHHHH", 0, 0x8180, 1, 1, 0, 0) + name + b"\0" + struct.pack(">HH", 1, 1) + \
+            b"\xc0\x0c" + struct.pack(">HHIH", 1, 1, 60, 4) + bytes([10, 0, 0, 1])
+        out.append("w%d cfg=%s l=%s mode=%s bad=%s q=%s up=reply:%s" % (
+            i, cfg, l, rng.choice(["frame", "frame", "raw"]), gens.hx(bad[:60000]), gens.hx(q), gens.hx(reply)))
+    return out
+
+
+def wedge_oracle(line, res):
+    f = gens.fields(res)
+    if res.startswith("bad=") and (f.get("st") != "ok" or f.get("n") != "1"):
+        return "after malformed input on the listener a valid query was not answered exactly once: " + res
+    return None
+
+
 PROPS["C01"] = dict(
     kinds=[dict(name="decode", gen=c01_decode_gen, oracle=decode_oracle, shards=16,
-                nontrivial=lambda l, r: True, timeout=1500)],
+                nontrivial=lambda l, r: True, timeout=1500),
+           dict(name="wedge", gen=c01_wedge_gen, oracle=wedge_oracle, model=False,
+                nontrivial=lambda l, r: "st=ok" in r, timeout=900)],
     rule="decode: boundary catalogue (hop 10/11, label 63/64, name 254/255/256, pointer loops, reserved prefixes, "
          "RDLENGTH +-1, every truncation of a reference message, lying counts) + grammar-generated messages (all RR types, "
-         "incoming compression) + mutated stream (truncation, byte flips, insertions, random bytes); distinct = distinct bytes",
+         "incoming compression) + mutated stream (truncation, byte flips, insertions, random bytes); distinct = distinct bytes; "
+         "wedge: arbitrary/malformed bytes sent to a real listener (udp, tcp, gnet, DoH GET/POST on net/http and fasthttp) of "
+         "the in-process router, then a valid query on the same listener must be answered exactly once (no model side: the "
+         "oracle is the property itself)",
     assumptions=["Go slices index like the checked primitives of Base/Prelude.v"],
     trusted=CODEC_TRUST,
 )
